@@ -7,7 +7,10 @@ import (
 	"math/big"
 	"sort"
 	"strings"
+	"sync"
 )
+
+var termMu sync.Mutex
 
 type SortKind int
 
@@ -113,6 +116,8 @@ func mk(op string, s *Sort, args ...*Term) *Term {
 		fmt.Fprintf(&sb, ",%d", a.id)
 	}
 	k := sb.String()
+	termMu.Lock()
+	defer termMu.Unlock()
 	if t, ok := termTab[k]; ok {
 		return t
 	}
@@ -142,8 +147,11 @@ func init() { True = BoolLit(true); False = BoolLit(false) }
 var freshCtr = map[string]int{}
 
 func Fresh(prefix string, s *Sort) *Term {
+	termMu.Lock()
 	freshCtr[prefix]++
-	return Const(fmt.Sprintf("%s!%d", prefix, freshCtr[prefix]), s)
+	n := freshCtr[prefix]
+	termMu.Unlock()
+	return Const(fmt.Sprintf("%s!%d", prefix, n), s)
 }
 
 func (t *Term) IsConst() bool  { return strings.HasPrefix(t.Op, "c:") }
@@ -409,6 +417,33 @@ func Neg(a *Term) *Term {
 // congruence between products matters; keeps those VCs in EUF + linear arithmetic).
 var acMulMode bool
 
+// Prod builds the AC-normal uninterpreted product of the given factors.
+func Prod(fs []*Term) *Term {
+	var flat []*Term
+	coef := big.NewRat(1, 1)
+	for _, f := range fs {
+		if f.IsRealLit() {
+			coef.Mul(coef, f.RatVal())
+			continue
+		}
+		flat = append(flat, prodFactors(f)...)
+	}
+	sort.Slice(flat, func(i, j int) bool { return flat[i].id < flat[j].id })
+	var t *Term
+	switch len(flat) {
+	case 0:
+		return RealLit(coef)
+	case 1:
+		t = flat[0]
+	default:
+		t = App(fmt.Sprintf("prod%d", len(flat)), SReal, flat...)
+	}
+	if coef.Cmp(big.NewRat(1, 1)) != 0 {
+		return mk("*", SReal, RealLit(coef), t)
+	}
+	return t
+}
+
 func prodFactors(t *Term) []*Term {
 	if strings.HasPrefix(t.Op, "f:prod") {
 		return t.Args
@@ -419,9 +454,9 @@ func prodFactors(t *Term) []*Term {
 func Mul(a, b *Term) *Term {
 	a, b, s := numSort(a, b)
 	if acMulMode && s == SReal && !a.IsRealLit() && !b.IsRealLit() {
-		fs := append(append([]*Term{}, prodFactors(a)...), prodFactors(b)...)
-		sort.Slice(fs, func(i, j int) bool { return fs[i].id < fs[j].id })
-		return App(fmt.Sprintf("prod%d", len(fs)), SReal, fs...)
+		// binary uninterpreted product (commutativity is a prelude axiom); no syntactic
+		// AC-normal form: that is not stable under equalities the solver discovers
+		return App("rmul", SReal, a, b)
 	}
 	if s == SInt {
 		if a.IsIntLit() && b.IsIntLit() {
@@ -505,6 +540,18 @@ func Le(a, b *Term) *Term { return cmp("<=", a, b) }
 func Gt(a, b *Term) *Term { return cmp(">", a, b) }
 func Ge(a, b *Term) *Term { return cmp(">=", a, b) }
 
+// At: element index of a slice with offset off (an uninterpreted wrapper around off + k so that
+// quantified facts about slice elements have arithmetic-free E-matching triggers; the prelude
+// axiom at(o,k) = o + k gives it its meaning).
+var useAtWrapper = false
+
+func At(off, k *Term) *Term {
+	if !useAtWrapper || (off.IsIntLit() && k.IsIntLit()) {
+		return Add(off, k)
+	}
+	return App("at", SInt, off, k)
+}
+
 func Select(a, i *Term) *Term {
 	if a.S.K != KArr {
 		panic("select on non-array " + a.S.Name + " " + a.String())
@@ -539,6 +586,9 @@ func definitelyDistinct(a, b *Term) bool {
 	}
 	if isAllocConst(a) && isAllocConst(b) {
 		return true
+	}
+	if a.Op == "f:at" && b.Op == "f:at" && a.Args[0] == b.Args[0] {
+		return definitelyDistinct(a.Args[1], b.Args[1])
 	}
 	// x + c1 vs x + c2
 	ba, ca := splitAddConst(a)
@@ -654,7 +704,11 @@ func Forall(vars []*Term, body *Term) *Term {
 		return body
 	}
 	t := mk(fmt.Sprintf("forall#%s", varKey(vars)), SBool, body)
-	t.Vars = vars
+	termMu.Lock()
+	if t.Vars == nil {
+		t.Vars = vars
+	}
+	termMu.Unlock()
 	return t
 }
 func Exists(vars []*Term, body *Term) *Term {
@@ -662,7 +716,11 @@ func Exists(vars []*Term, body *Term) *Term {
 		return body
 	}
 	t := mk(fmt.Sprintf("exists#%s", varKey(vars)), SBool, body)
-	t.Vars = vars
+	termMu.Lock()
+	if t.Vars == nil {
+		t.Vars = vars
+	}
+	termMu.Unlock()
 	return t
 }
 func varKey(vars []*Term) string {
@@ -745,6 +803,10 @@ func rebuild(t *Term, args []*Term) *Term {
 		return Forall(t.Vars, args[0])
 	case strings.HasPrefix(t.Op, "exists#"):
 		return Exists(t.Vars, args[0])
+	case strings.HasPrefix(t.Op, "f:prod"):
+		return Prod(args) // keep the AC-normal form under substitution
+	case t.Op == "f:at":
+		return At(args[0], args[1])
 	}
 	return mk(t.Op, t.S, args...)
 }
@@ -752,6 +814,8 @@ func rebuild(t *Term, args []*Term) *Term {
 // ---------------------------------------------------------------------------
 // printing
 
+// smtSym maps an internal name to a simple SMT-LIB symbol (no quoting: cvc5 1.0 mishandles
+// quoted constructor names in testers).
 func smtSym(s string) string {
 	ok := true
 	for _, r := range s {
@@ -762,7 +826,41 @@ func smtSym(s string) string {
 	if ok && len(s) > 0 && !(s[0] >= '0' && s[0] <= '9') {
 		return s
 	}
-	return "|" + strings.ReplaceAll(s, "|", "!") + "|"
+	var sb strings.Builder
+	if len(s) == 0 || (s[0] >= '0' && s[0] <= '9') {
+		sb.WriteByte('_')
+	}
+	for _, r := range s {
+		switch {
+		case r >= 'a' && r <= 'z' || r >= 'A' && r <= 'Z' || r >= '0' && r <= '9' || strings.ContainsRune("_.!-$@", r):
+			sb.WriteRune(r)
+		case r == '*':
+			sb.WriteString("~p")
+		case r == ':':
+			sb.WriteString("~c")
+		case r == '?':
+			sb.WriteString("~q")
+		case r == '[':
+			sb.WriteString("~l")
+		case r == ']':
+			sb.WriteString("~r")
+		case r == ',':
+			sb.WriteString("~m")
+		case r == ' ':
+			sb.WriteString("~s")
+		case r == '(':
+			sb.WriteString("~o")
+		case r == ')':
+			sb.WriteString("~e")
+		case r == '#':
+			sb.WriteString("~h")
+		case r == '/':
+			sb.WriteString("~d")
+		default:
+			fmt.Fprintf(&sb, "~x%x", r)
+		}
+	}
+	return sb.String()
 }
 
 func ratSMT(r *big.Rat) string {
@@ -833,7 +931,21 @@ func (p *printer) str(t *Term) string {
 		for _, v := range t.Vars {
 			vs = append(vs, "("+smtSym(v.ConstName())+" "+v.S.Name+")")
 		}
-		return "(" + q + " (" + strings.Join(vs, " ") + ") " + p.str(t.Args[0]) + ")"
+		body := p.str(t.Args[0])
+		if q == "forall" {
+			if pats := triggersFor(t); len(pats) > 0 {
+				var ps []string
+				for _, mp := range pats {
+					var ts []string
+					for _, x := range mp {
+						ts = append(ts, p.str(x))
+					}
+					ps = append(ps, ":pattern ("+strings.Join(ts, " ")+")")
+				}
+				body = "(! " + body + " " + strings.Join(ps, " ") + ")"
+			}
+		}
+		return "(" + q + " (" + strings.Join(vs, " ") + ") " + body + ")"
 	case t.Op == "-" && len(t.Args) == 2:
 		return p.app("-", t.Args)
 	}
@@ -1117,4 +1229,182 @@ func depSorts(s *Sort, f func(string)) {
 	case KData:
 		f(s.Name)
 	}
+}
+
+// triggersFor computes E-matching patterns for a universally quantified term: maximal subterms
+// built only from select / at / accessors / uninterpreted applications over the bound variables.
+func triggersFor(q *Term) [][]*Term {
+	vars := map[*Term]bool{}
+	for _, v := range q.Vars {
+		vars[v] = true
+	}
+	hasVar := map[*Term]bool{}
+	var hv func(t *Term) bool
+	hv = func(t *Term) bool {
+		if r, ok := hasVar[t]; ok {
+			return r
+		}
+		r := vars[t]
+		for _, a := range t.Args {
+			if hv(a) {
+				r = true
+			}
+		}
+		hasVar[t] = r
+		return r
+	}
+	okMemo := map[*Term]bool{}
+	var patOK func(t *Term) bool
+	patOK = func(t *Term) bool {
+		if r, ok := okMemo[t]; ok {
+			return r
+		}
+		r := true
+		if !hv(t) {
+			r = !hasQuantTerm(t)
+		} else if vars[t] {
+			r = true
+		} else {
+			switch {
+			case t.Op == "select", strings.HasPrefix(t.Op, "f:"), strings.HasPrefix(t.Op, "A:"), strings.HasPrefix(t.Op, "C:"):
+				for _, a := range t.Args {
+					if !patOK(a) {
+						r = false
+					}
+				}
+			default:
+				r = false
+			}
+		}
+		okMemo[t] = r
+		return r
+	}
+	var cands []*Term
+	seen := map[*Term]bool{}
+	var walk func(t *Term, underPat bool, inner map[*Term]bool)
+	walk = func(t *Term, underPat bool, inner map[*Term]bool) {
+		if seen[t] && len(inner) == 0 {
+			return
+		}
+		if len(inner) == 0 {
+			seen[t] = true
+		}
+		ni := inner
+		if len(t.Vars) > 0 && t != q {
+			ni = map[*Term]bool{}
+			for k := range inner {
+				ni[k] = true
+			}
+			for _, v := range t.Vars {
+				ni[v] = true
+			}
+		}
+		isPat := false
+		if !vars[t] && hv(t) && patOK(t) && (t.Op == "select" || strings.HasPrefix(t.Op, "f:")) {
+			// must not mention variables of inner quantifiers
+			m := map[*Term]bool{}
+			if len(ni) == 0 || !containsAnyT(t, ni, m) {
+				isPat = true
+				if !underPat {
+					cands = append(cands, t)
+				}
+			}
+		}
+		for _, a := range t.Args {
+			walk(a, underPat || isPat, ni)
+		}
+	}
+	walk(q.Args[0], false, map[*Term]bool{})
+	if len(cands) == 0 {
+		return nil
+	}
+	varsOf := func(t *Term) map[*Term]bool {
+		out := map[*Term]bool{}
+		var rec func(t *Term)
+		rs := map[*Term]bool{}
+		rec = func(t *Term) {
+			if rs[t] {
+				return
+			}
+			rs[t] = true
+			if vars[t] {
+				out[t] = true
+			}
+			for _, a := range t.Args {
+				rec(a)
+			}
+		}
+		rec(t)
+		return out
+	}
+	var out [][]*Term
+	var partial []*Term
+	for _, c := range cands {
+		if len(varsOf(c)) == len(vars) {
+			if len(out) < 4 {
+				out = append(out, []*Term{c})
+			}
+		} else {
+			partial = append(partial, c)
+		}
+	}
+	if len(out) == 0 {
+		// greedy multi-pattern
+		covered := map[*Term]bool{}
+		var mp []*Term
+		for len(covered) < len(vars) {
+			best := -1
+			bestGain := 0
+			for i, c := range partial {
+				g := 0
+				for v := range varsOf(c) {
+					if !covered[v] {
+						g++
+					}
+				}
+				if g > bestGain {
+					bestGain = g
+					best = i
+				}
+			}
+			if best < 0 {
+				return nil
+			}
+			mp = append(mp, partial[best])
+			for v := range varsOf(partial[best]) {
+				covered[v] = true
+			}
+		}
+		out = append(out, mp)
+	}
+	return out
+}
+
+func containsAnyT(t *Term, vars map[*Term]bool, memo map[*Term]bool) bool {
+	if v, ok := memo[t]; ok {
+		return v
+	}
+	r := vars[t]
+	if !r {
+		for _, a := range t.Args {
+			if containsAnyT(a, vars, memo) {
+				r = true
+				break
+			}
+		}
+	}
+	memo[t] = r
+	return r
+}
+
+func hasQuantTerm(t *Term) bool {
+	if strings.HasPrefix(t.Op, "forall#") || strings.HasPrefix(t.Op, "exists#") {
+		return true
+	}
+	for _, a := range t.Args {
+		if hasQuantTerm(a) {
+			return true
+		}
+	}
+	return false
 }
